@@ -178,19 +178,33 @@ fn stress(threads: usize, keys: u64, ops: usize, seed: u64) -> Result<(), String
             let nthreads = threads.max(4);
             hs.push(std::thread::spawn(move || {
                 let mut got = Vec::with_capacity(rounds);
+                let mut early: Option<String> = None;
                 for r in 0..rounds {
                     arrived.fetch_add(1, Ordering::SeqCst);
                     while arrived.load(Ordering::SeqCst) < (r + 1) * nthreads {
                         std::hint::spin_loop();
                     }
                     let kind = [Kind::Mixed, Kind::Relay, Kind::Custom][r % 3];
-                    got.push(maps_b.get(kind, 1_000_000 + r as u64));
+                    let a = maps_b.get(kind, 1_000_000 + r as u64);
+                    // an address handed out by `get` must translate back at once, also while
+                    // another thread's first `get` of the same key is still in progress
+                    let IpAddr::V6(v6) = a.ip() else { unreachable!() };
+                    if maps_b.lookup(kind, v6) != Ok(Some(1_000_000 + r as u64)) && early.is_none() {
+                        early = Some(format!("thread {t} round {r}: address {a} returned by get() does not translate back yet ({:?})", maps_b.lookup(kind, v6)));
+                    }
+                    got.push(a);
                 }
-                let _ = t;
-                got
+                (got, early)
             }));
         }
-        let all: Vec<Vec<SocketAddr>> = hs.into_iter().map(|h| h.join().expect("thread")).collect();
+        let mut all: Vec<Vec<SocketAddr>> = Vec::new();
+        for h in hs {
+            let (got, early) = h.join().expect("thread");
+            if let Some(e) = early {
+                return Err(e);
+            }
+            all.push(got);
+        }
         for r in 0..rounds {
             let kind = [Kind::Mixed, Kind::Relay, Kind::Custom][r % 3];
             let first = all[0][r];
